@@ -45,6 +45,16 @@ case "$cmd" in
     done
     git checkout -q -- . && git clean -fdq -- . >/dev/null 2>&1
     ;;
+  exec)
+    # lane.sh exec <name> <patch|-> <shell command...> : run a command in the lane's verif copy with the patch applied
+    patch="${3:-}"; shift 3
+    cd "$L/repo" || exit 2
+    git diff --quiet || { echo "lane repo dirty, refusing"; exit 2; }
+    if [ "$patch" != "-" ]; then git apply "$patch" || { echo "patch does not apply: $patch"; exit 2; }; fi
+    ( cd "$L/verif" && VERIF_EVIDENCE_DIR="$L/evidence" VERIF_REPLAY_DIR="$L/replays" bash -c "$*" ); rc=$?
+    cd "$L/repo" && git checkout -q -- . && git clean -fdq -- . >/dev/null 2>&1
+    exit $rc
+    ;;
   destroy)
     git -C /repo worktree remove --force "$L/repo" 2>/dev/null
     rm -rf "$L"
